@@ -29,6 +29,7 @@ import Pycdlib.Model.Reloc
 import Pycdlib.Model.Iso
 import Pycdlib.Model.DirBytes
 import Pycdlib.Model.PtBytes
+import Pycdlib.Model.Ranges
 namespace Pycdlib
 
 def parseCps (s : String) : Option (List Nat) :=
@@ -179,6 +180,15 @@ def dispatchPure (toks : List String) : Option String :=
     match Reloc.relocMany name.toList (← k.toNat?) [] with
     | some l => pure (".".intercalate (l.map String.ofList))
     | none => pure "none"
+  | ["claims", ds] => do
+    -- directories (first sector : sectors) in the order the walk meets them
+    let l ← (ds.splitOn ",").mapM fun x =>
+      match x.splitOn ":" with
+      | [s, n] => do pure ((← s.toNat?), (← n.toNat?))
+      | _ => none
+    match Ranges.claimAll [] l with
+    | none => pure "refused"
+    | some rs => pure ("ranges " ++ ",".intercalate (rs.map fun r => s!"{r.1}-{r.2}"))
   | ["ptext", be, img, recs] => do
     -- one path table as written vs the model writer, and the model reader on the written bytes
     let got ← ofHex img
